@@ -222,7 +222,8 @@ spif_str_init_from_buff(spif_str_t self, spif_charptr_t buff, spif_stridx_t size
 spif_bool_t
 spif_str_init_from_fp(spif_str_t self, FILE *fp)
 {
-    spif_charptr_t p, end = NULL;
+    spif_charptr_t end = NULL;
+    spif_stridx_t off = 0;
 
     ASSERT_RVAL(!SPIF_STR_ISNULL(self), FALSE);
     ASSERT_RVAL((fp != (FILE *) NULL), FALSE);
@@ -231,19 +232,19 @@ spif_str_init_from_fp(spif_str_t self, FILE *fp)
     self->size = buff_inc;
     self->len = 0;
     self->s = (spif_charptr_t) MALLOC(self->size);
+    self->s[0] = 0;
 
-    for (p = self->s; fgets((char *)p, buff_inc, fp); p += buff_inc) {
-        if (!(end = (spif_charptr_t)strchr((const char *)p, '\n'))) {
-            self->size += buff_inc;
+    while (fgets((char *) self->s + off, buff_inc, fp)) {
+        if (!(end = (spif_charptr_t) strchr((const char *) self->s + off, '\n'))) {
+            off += (spif_stridx_t) strlen((const char *) self->s + off);
+            self->size = off + buff_inc;
             self->s = (spif_charptr_t) REALLOC(self->s, self->size);
         } else {
             *end = 0;
             break;
         }
     }
-    self->len = (spif_stridx_t) ((end)
-                          ? (end - self->s)
-                          : ((int) strlen((const char *)self->s)));
+    self->len = (spif_stridx_t) ((end) ? (end - self->s) : (off));
     self->size = self->len + 1;
     self->s = (spif_charptr_t) REALLOC(self->s, self->size);
     return TRUE;
